@@ -277,6 +277,154 @@ type Edge struct {
 // evaluates to passWhenAtomTrue.  The returned set contains the passing
 // edges; n is the number of matching branch instructions.
 func CondEdges(fn *ssa.Function, match func(a Atom) (bool, bool)) (edges map[Edge]bool, n int) {
+	return condEdges(fn, match, 2)
+}
+
+// liftPredicate handles a branch on the boolean result of a helper of the
+// same package ("extract condition into a predicate function"): when, inside
+// the helper, every `return b` (b a constant) is reachable only through edges
+// that pass the matched guard, the caller's edge on which the call yields b
+// passes the guard as well.
+func liftPredicate(cond ssa.Value, match func(a Atom) (bool, bool), depth int) (matched bool, passWhenTrue bool) {
+	return liftResult(cond, match, depth, false)
+}
+
+// liftNil is liftPredicate for helpers whose result is tested against nil (an
+// error or a pointer): passWhenNil tells on which outcome the guard is passed.
+func liftNil(res ssa.Value, match func(a Atom) (bool, bool), depth int) (matched bool, passWhenNil bool) {
+	return liftResult(res, match, depth, true)
+}
+
+// lastLiftCount: number of guard branches matched inside the helper by the
+// last successful lift (so that a caller's "at least k guards" floor still
+// counts the guards that moved into the helper).
+var lastLiftCount int
+
+func liftResult(cond ssa.Value, match func(a Atom) (bool, bool), depth int, nilMode bool) (matched bool, passWhenTrue bool) {
+	if depth <= 0 {
+		return false, false
+	}
+	var call *ssa.Call
+	idx := -1
+	switch x := cond.(type) {
+	case *ssa.Call:
+		call = x
+	case *ssa.Extract:
+		call, _ = x.Tuple.(*ssa.Call)
+		idx = x.Index
+	}
+	if call == nil {
+		return false, false
+	}
+	h := Impl(call.Call.StaticCallee())
+	if h == nil || h.Blocks == nil || !InModule(h) || h.Pkg != call.Parent().Pkg {
+		return false, false
+	}
+	g, n := condEdges(h, match, depth-1)
+	for _, want := range []bool{true, false} {
+		nLeaves, bad := 0, false
+		valueMatched := false
+		for _, blk := range h.Blocks {
+			ret, ok := AsReturn(blk.Instrs[len(blk.Instrs)-1])
+			if !ok {
+				continue
+			}
+			ri := idx
+			if ri < 0 {
+				if len(ret.Results) != 1 {
+					return false, false
+				}
+				ri = 0
+			}
+			if ri >= len(ret.Results) {
+				return false, false
+			}
+			// leaves of the returned value, each with the place it comes from: the return itself, or the
+			// CFG edge of the phi it arrives through
+			type leaf struct {
+				v    ssa.Value
+				at   ssa.Instruction // reaching this instruction ...
+				edge *Edge           // ... and then taking this edge (nil: no edge)
+			}
+			var leaves []leaf
+			var walk func(v ssa.Value, at ssa.Instruction, e *Edge, depth int)
+			walk = func(v ssa.Value, at ssa.Instruction, e *Edge, depth int) {
+				if ph, isPhi := v.(*ssa.Phi); isPhi && depth < 4 {
+					for i, ev := range ph.Edges {
+						pred := ph.Block().Preds[i]
+						si := 0
+						for k, sc := range pred.Succs {
+							if sc == ph.Block() {
+								si = k
+							}
+						}
+						walk(ev, pred.Instrs[len(pred.Instrs)-1], &Edge{From: pred, Succ: si}, depth+1)
+					}
+					return
+				}
+				leaves = append(leaves, leaf{v, at, e})
+			}
+			walk(Res(ret, ri), ret, nil, 0)
+			for _, lf := range leaves {
+				if nilMode {
+					isNil := IsNilConst(lf.v)
+					if isNil != want {
+						if isNil || provablyNonNil(lf.v) || nonNilHere(lf.v, lf.at) {
+							continue // this leaf cannot yield the outcome looked at
+						}
+					}
+					if !isNil {
+						// the returned value is itself what the guard tests: nil-ness of the result is the guard's outcome
+						if m, whenTrue := match(Atom{Base: lf.v, Op: token.EQL, Other: ssa.NewConst(nil, lf.v.Type())}); m && whenTrue == want {
+							nLeaves++
+							valueMatched = true
+							continue
+						}
+					}
+				} else if cb, isC := ConstBool(lf.v); isC {
+					if cb != want {
+						continue
+					}
+				} else {
+					// a computed result: `want` implies the guard when the value itself is the guard condition
+					at := Decompose(lf.v)
+					if m, whenTrue := match(at); m && (whenTrue != at.Neg) == want {
+						nLeaves++
+						valueMatched = true
+						continue
+					}
+					// ... or, taken as a whole, a value the matcher knows as a truth value
+					if m, whenTrue := match(Atom{Base: lf.v, Op: token.ILLEGAL}); m && whenTrue == want {
+						nLeaves++
+						valueMatched = true
+						continue
+					}
+					if rat := (Atom{Base: ResolveCellLoad(at.Base), Op: at.Op, Other: at.Other, Neg: at.Neg}); rat.Base != at.Base {
+						if m, whenTrue := match(rat); m && (whenTrue != rat.Neg) == want {
+							nLeaves++
+							continue
+						}
+					}
+				}
+				nLeaves++
+				if lf.edge != nil && g[*lf.edge] {
+					continue // arrives through a passing edge
+				}
+				target := lf.at
+				if found, _, _ := Reach(Query{From: []Point{Entry(h)}, Target: func(x ssa.Instruction) bool { return x == target }, AvoidEdges: g}); found {
+					bad = true
+				}
+			}
+		}
+		if nLeaves > 0 && !bad && (n > 0 || valueMatched) {
+			lastLiftCount = n
+			return true, want
+		}
+	}
+	return false, false
+}
+
+func condEdges(fn *ssa.Function, match func(a Atom) (bool, bool), depth int) (edges map[Edge]bool, n int) {
 	edges = map[Edge]bool{}
 	for _, b := range fn.Blocks {
 		if len(b.Instrs) == 0 {
@@ -288,6 +436,7 @@ func CondEdges(fn *ssa.Function, match func(a Atom) (bool, bool)) (edges map[Edg
 		}
 		a := Decompose(ifi.Cond)
 		m, whenTrue := match(a)
+		lifted := false
 		if !m {
 			// the same condition with variables kept in local cells (the function has a defer or a closure)
 			// replaced by the value stored last
@@ -307,9 +456,44 @@ func CondEdges(fn *ssa.Function, match func(a Atom) (bool, bool)) (edges map[Edg
 			}
 		}
 		if !m {
+			// a condition on a parameter of a helper with a single call site: the argument passed there
+			sub := func(v ssa.Value) ssa.Value {
+				if prm, ok := v.(*ssa.Parameter); ok {
+					if arg := soleArgument(prm); arg != nil {
+						return arg
+					}
+				}
+				return v
+			}
+			ra := Atom{Base: sub(ResolveCellLoad(a.Base)), Op: a.Op, Neg: a.Neg}
+			if a.Other != nil {
+				ra.Other = sub(ResolveCellLoad(a.Other))
+			}
+			if ra.Base != a.Base || ra.Other != a.Other {
+				if m2, w2 := match(ra); m2 {
+					a, m, whenTrue = ra, true, w2
+				}
+			}
+		}
+		if !m && a.Op == token.ILLEGAL {
+			// a predicate helper of the same package that wraps the guard
+			if lm, lt := liftPredicate(ResolveCellLoad(a.Base), match, depth); lm {
+				m, whenTrue, lifted = true, lt, true
+			}
+		}
+		if !m && (a.Op == token.EQL || a.Op == token.NEQ) && IsNilConst(a.Other) {
+			// a helper whose error / pointer result tells whether the guard was passed
+			if lm, passNil := liftNil(ResolveCellLoad(a.Base), match, depth); lm {
+				m, whenTrue, lifted = true, (a.Op == token.EQL) == passNil, true
+			}
+		}
+		if !m {
 			continue
 		}
 		n++
+		if lifted && lastLiftCount > 1 {
+			n += lastLiftCount - 1
+		}
 		// the condition is true on Succs[0]; atom value = cond value XOR Neg
 		atomTrueSucc := 0
 		if a.Neg {
@@ -358,28 +542,47 @@ type Query struct {
 // Reach answers the query; when a path exists it returns the block trace and
 // the target instruction reached.
 func Reach(q Query) (found bool, trace []*ssa.BasicBlock, hit ssa.Instruction) {
+	// The search is path-sensitive for one class of conditions: a branch on an
+	// immutable input of the function (parameter or captured variable compared
+	// with a constant or another such input, or tested for truth) decides the
+	// same way every time it is met on a path — `if n > 0 && ...` followed later
+	// by `if n > 0 {...}` has no path that takes the first false and the
+	// second true.  Those are the infeasible paths behaviour-preserving
+	// restructurings introduce most often.
+	type key struct {
+		b   *ssa.BasicBlock
+		dec string
+	}
 	type state struct {
 		b    *ssa.BasicBlock
 		from int
+		dec  string
 	}
-	visited := map[*ssa.BasicBlock]bool{}
-	parent := map[*ssa.BasicBlock]*ssa.BasicBlock{}
+	visited := map[key]bool{}
+	parent := map[key]key{}
+	hasParent := map[key]bool{}
 	var work []state
 	for _, p := range q.From {
-		work = append(work, state{p.Block, p.Idx})
+		work = append(work, state{p.Block, p.Idx, ""})
 	}
 	startBlocks := map[*ssa.BasicBlock]bool{}
 	for _, p := range q.From {
 		startBlocks[p.Block] = true
 	}
+	steps := 0
 	for len(work) > 0 {
 		s := work[0]
 		work = work[1:]
+		steps++
+		if steps > 200000 {
+			break
+		}
+		k := key{s.b, s.dec}
 		if s.from == 0 {
-			if visited[s.b] {
+			if visited[k] {
 				continue
 			}
-			visited[s.b] = true
+			visited[k] = true
 		}
 		blocked := false
 		for i := s.from; i < len(s.b.Instrs); i++ {
@@ -387,11 +590,11 @@ func Reach(q Query) (found bool, trace []*ssa.BasicBlock, hit ssa.Instruction) {
 			if q.Target != nil && q.Target(in) {
 				// build trace
 				var tr []*ssa.BasicBlock
-				inTrace := map[*ssa.BasicBlock]bool{}
-				for b := s.b; b != nil && !inTrace[b]; b = parent[b] {
-					inTrace[b] = true
-					tr = append([]*ssa.BasicBlock{b}, tr...)
-					if startBlocks[b] && (parent[b] == nil || b != s.b) {
+				inTrace := map[key]bool{}
+				for c := k; !inTrace[c]; c = parent[c] {
+					inTrace[c] = true
+					tr = append([]*ssa.BasicBlock{c.b}, tr...)
+					if !hasParent[c] || (startBlocks[c.b] && c != k) {
 						break
 					}
 				}
@@ -405,19 +608,92 @@ func Reach(q Query) (found bool, trace []*ssa.BasicBlock, hit ssa.Instruction) {
 		if blocked {
 			continue
 		}
+		ck, atomTrueSucc := correlKey(s.b)
 		for i, succ := range s.b.Succs {
 			if q.AvoidEdges != nil && q.AvoidEdges[Edge{s.b, i}] {
 				continue
 			}
-			if !visited[succ] {
-				if _, has := parent[succ]; !has {
-					parent[succ] = s.b
+			dec := s.dec
+			if ck != "" {
+				val := "F"
+				if i == atomTrueSucc {
+					val = "T"
 				}
-				work = append(work, state{succ, 0})
+				if j := strings.Index(dec, ck+"="); j >= 0 {
+					if dec[j+len(ck)+1:j+len(ck)+2] != val {
+						continue // contradicts a decision taken earlier on this path
+					}
+				} else if strings.Count(dec, ";") < 6 {
+					dec += ck + "=" + val + ";"
+				}
+			}
+			nk := key{succ, dec}
+			if !visited[nk] {
+				if !hasParent[nk] {
+					parent[nk] = k
+					hasParent[nk] = true
+				}
+				work = append(work, state{succ, 0, dec})
 			}
 		}
 	}
 	return false, nil, nil
+}
+
+// correlKey returns a key for the branch condition at the end of b when it
+// depends only on immutable inputs of the function, and the successor index
+// on which the condition's atom is true.
+func correlKey(b *ssa.BasicBlock) (string, int) {
+	if len(b.Instrs) == 0 {
+		return "", 0
+	}
+	iff, ok := b.Instrs[len(b.Instrs)-1].(*ssa.If)
+	if !ok {
+		return "", 0
+	}
+	at := Decompose(iff.Cond)
+	immutable := func(v ssa.Value) (string, bool) {
+		switch x := v.(type) {
+		case *ssa.Parameter:
+			return fmt.Sprintf("p%p", x), true
+		case *ssa.FreeVar:
+			return "", false // captured by reference: may change
+		case *ssa.Const:
+			if x.Value == nil {
+				return "nil", true
+			}
+			return "c" + x.Value.ExactString(), true
+		case *ssa.Call:
+			// len of a parameter
+			if bi, ok := x.Call.Value.(*ssa.Builtin); ok && bi.Name() == "len" && len(x.Call.Args) == 1 {
+				if prm, ok := x.Call.Args[0].(*ssa.Parameter); ok {
+					if _, isSlice := prm.Type().Underlying().(*types.Slice); !isSlice { // strings are immutable; slices' length of a parameter is fixed too, but keep to strings
+						return fmt.Sprintf("len(p%p)", prm), true
+					}
+				}
+			}
+		}
+		return "", false
+	}
+	kb, ok := immutable(at.Base)
+	if !ok {
+		return "", 0
+	}
+	if _, isConst := at.Base.(*ssa.Const); isConst {
+		return "", 0
+	}
+	ko := ""
+	if at.Op != token.ILLEGAL {
+		ko, ok = immutable(at.Other)
+		if !ok {
+			return "", 0
+		}
+	}
+	succ := 0
+	if at.Neg {
+		succ = 1
+	}
+	return kb + "|" + at.Op.String() + "|" + ko, succ
 }
 
 // IsReturn matches normal return instructions.
@@ -604,4 +880,220 @@ func cellEscapes(a *ssa.Alloc) bool {
 		}
 	}
 	return false
+}
+
+// provablyNonNil: a value that cannot be nil (an allocation, a composite
+// literal's address, an error built by a constructor call).
+func provablyNonNil(v ssa.Value) bool {
+	switch x := v.(type) {
+	case *ssa.Alloc, *ssa.MakeInterface, *ssa.MakeMap, *ssa.MakeSlice, *ssa.MakeClosure, *ssa.FieldAddr, *ssa.IndexAddr:
+		return true
+	case *ssa.Call:
+		k := CalleeKey(x.Common())
+		return k == "fmt.Errorf" || k == "errors.New" || strings.HasSuffix(k, "errors.Error") || strings.HasPrefix(k, "github.com/AdguardTeam/golibs/errors.")
+	case *ssa.ChangeInterface:
+		return provablyNonNil(x.X)
+	}
+	return false
+}
+
+var (
+	callSitesProg *ssa.Program
+	callSites     map[*ssa.Function][]*ssa.CallCommon
+)
+
+// staticCallSites returns the static call sites of fn in module functions.
+func staticCallSites(fn *ssa.Function) []*ssa.CallCommon {
+	if fn == nil || fn.Prog == nil {
+		return nil
+	}
+	if callSitesProg != fn.Prog {
+		callSitesProg = fn.Prog
+		callSites = map[*ssa.Function][]*ssa.CallCommon{}
+		for _, pkg := range fn.Prog.AllPackages() {
+			if pkg.Pkg == nil || !(pkg.Pkg.Path() == ModPath || strings.HasPrefix(pkg.Pkg.Path(), ModPath+"/")) {
+				continue
+			}
+			var visit func(f *ssa.Function)
+			visit = func(f *ssa.Function) {
+				for _, b := range f.Blocks {
+					for _, in := range b.Instrs {
+						if ci, ok := in.(ssa.CallInstruction); ok {
+							if callee := ci.Common().StaticCallee(); callee != nil {
+								callSites[callee] = append(callSites[callee], ci.Common())
+							}
+						}
+					}
+				}
+				for _, an := range f.AnonFuncs {
+					visit(an)
+				}
+			}
+			for _, mem := range pkg.Members {
+				if f, ok := mem.(*ssa.Function); ok {
+					visit(f)
+				}
+				if t, ok := mem.(*ssa.Type); ok {
+					for _, recv := range []types.Type{t.Type(), types.NewPointer(t.Type())} {
+						ms := fn.Prog.MethodSets.MethodSet(recv)
+						for i := 0; i < ms.Len(); i++ {
+							if mf := fn.Prog.MethodValue(ms.At(i)); mf != nil && mf.Synthetic == "" {
+								visit(mf)
+							}
+						}
+					}
+				}
+			}
+		}
+	}
+	return callSites[fn]
+}
+
+// soleArgument returns the value passed for parameter prm when its function
+// has exactly one static call site in the module (a helper extracted from
+// that caller), or nil.
+func soleArgument(prm *ssa.Parameter) ssa.Value {
+	fn := prm.Parent()
+	if fn == nil || fn.Object() == nil || fn.Object().Exported() {
+		return nil
+	}
+	sites := staticCallSites(fn)
+	// a method value or another indirect use would make other callers possible
+	seen := map[*ssa.CallCommon]bool{}
+	var uniq []*ssa.CallCommon
+	for _, s := range sites {
+		if !seen[s] {
+			seen[s] = true
+			uniq = append(uniq, s)
+		}
+	}
+	if len(uniq) != 1 {
+		return nil
+	}
+	for i, p := range fn.Params {
+		if p == prm && i < len(uniq[0].Args) {
+			return uniq[0].Args[i]
+		}
+	}
+	return nil
+}
+
+// GuardedDeep is CondEdges + UnguardedSinks over fn and the helpers of its
+// package it calls (to the given depth): a sink inside a helper is guarded
+// when it is guarded inside the helper, or when the call of the helper is
+// guarded in the caller.  It returns the unguarded sinks (with the trace inside
+// the function that contains them), the number of matched guards and the
+// number of sinks seen.
+func GuardedDeep(fn *ssa.Function, match func(a Atom) (bool, bool), sink func(ssa.Instruction) bool, depth int) (off []Offender, nGuards, nSinks int) {
+	memo := map[*ssa.Function][]Offender{}
+	busy := map[*ssa.Function]bool{}
+	var eval func(f *ssa.Function, d int) []Offender
+	eval = func(f *ssa.Function, d int) (res []Offender) {
+		if f == nil || f.Blocks == nil || busy[f] {
+			return nil
+		}
+		if r, ok := memo[f]; ok {
+			return r
+		}
+		busy[f] = true
+		defer func() { busy[f] = false; memo[f] = res }()
+		g, n := CondEdges(f, match)
+		nGuards += n
+		var out []Offender
+		o, ns := UnguardedSinks(f, sink, g)
+		nSinks += ns
+		out = append(out, o...)
+		if d <= 0 {
+			return out
+		}
+		for _, b := range f.Blocks {
+			for _, in := range b.Instrs {
+				ci, ok := in.(ssa.CallInstruction)
+				if !ok {
+					continue
+				}
+				h := Impl(ci.Common().StaticCallee())
+				if h == nil || h == f || h.Pkg != f.Pkg || !InModule(h) {
+					if mc, isMC := ci.Common().Value.(*ssa.MakeClosure); isMC {
+						h, _ = mc.Fn.(*ssa.Function)
+					}
+					if h == nil || h == f || h.Pkg != f.Pkg {
+						continue
+					}
+				}
+				inner := eval(h, d-1)
+				if len(inner) == 0 {
+					continue
+				}
+				// the helper has sinks it does not guard itself: is this call guarded here?
+				target := in
+				if found, _, _ := Reach(Query{From: []Point{Entry(f)}, Target: func(x ssa.Instruction) bool { return x == target }, AvoidEdges: g}); found {
+					out = append(out, inner...)
+				}
+			}
+		}
+		return out
+	}
+	off = eval(fn, depth)
+	return off, nGuards, nSinks
+}
+
+// LiftNil reports whether res is the result of a helper of the same package
+// that returns nil only through edges passing the matched guard.
+func LiftNil(res ssa.Value, match func(a Atom) (bool, bool)) bool {
+	m, passNil := liftNil(res, match, 2)
+	return m && passNil
+}
+
+// ArgsOfParam returns the values passed for prm at every static call site of
+// its (unexported) function, or nil when there is none or the function is
+// exported.
+func ArgsOfParam(prm *ssa.Parameter) []ssa.Value {
+	fn := prm.Parent()
+	if fn == nil || fn.Object() == nil || fn.Object().Exported() {
+		return nil
+	}
+	idx := -1
+	for i, p := range fn.Params {
+		if p == prm {
+			idx = i
+		}
+	}
+	var out []ssa.Value
+	seen := map[*ssa.CallCommon]bool{}
+	for _, s := range staticCallSites(fn) {
+		if seen[s] || idx < 0 || idx >= len(s.Args) {
+			continue
+		}
+		seen[s] = true
+		out = append(out, s.Args[idx])
+	}
+	return out
+}
+
+// nonNilHere: v is returned from a block that is entered only on the
+// `v != nil` edge of a test of v (the `if err != nil { return err }` idiom).
+func nonNilHere(v ssa.Value, at ssa.Instruction) bool {
+	if at == nil {
+		return false
+	}
+	b := at.Block()
+	if len(b.Preds) != 1 {
+		return false
+	}
+	p := b.Preds[0]
+	iff, ok := p.Instrs[len(p.Instrs)-1].(*ssa.If)
+	if !ok {
+		return false
+	}
+	a := Decompose(iff.Cond)
+	if !(a.Op == token.EQL || a.Op == token.NEQ) || !IsNilConst(a.Other) || !SameValue(a.Base, v) {
+		return false
+	}
+	// the atom is true on Succs[0] unless negated
+	atomTrue := p.Succs[0] == b
+	if a.Neg {
+		atomTrue = !atomTrue
+	}
+	return (a.Op == token.NEQ) == atomTrue
 }
